@@ -6,7 +6,7 @@ from pyvc.se import *
 F = 'xmlschema/validators/simple_types.py'
 
 t = Target('simple_types.XsdUnion.raw_decode', ['C02', 'C19'], F, 'XsdUnion.raw_decode',
-           note='the result is that of the least-index member whose strict decode does not raise; pattern facets pushed by a restriction of the union are applied '
+           note='the result is that of the least-index member whose strict decode does not raise; the pattern facets pushed by the restriction steps above the union are ALL applied '
                 'to the text as normalised by THAT member; no member: skip returns the raw text, lax re-decodes with the first member that failed other than by a '
                 'decode error (patterns applied with its normalisation), otherwise exactly one decode error is emitted',
            assumes=['member decoding is an uninterpreted relation ok(member) / result(member); XMLSchemaDecodeError vs other validation errors as an uninterpreted predicate'])
@@ -71,6 +71,15 @@ def _(run):
                                                                     z3.ForAll([k], z3.Implies(z3.And(k >= 0, k < j), is_dec(mts[k])))))))
 
     def loop(e, node, s):
+        if ast.unparse(node.iter) == 'patterns':
+            # `for facet in patterns: facet(<text>)`: every pushed facet is applied to the same text, the first failure raises
+            b = node.body
+            if not (len(b) == 1 and isinstance(b[0], ast.Expr) and isinstance(b[0].value, ast.Call) and isinstance(b[0].value.func, ast.Name) and b[0].value.func.id == node.target.id
+                    and len(b[0].value.args) == 1 and not b[0].value.keywords and node.target.id not in {n.id for n in ast.walk(b[0].value.args[0]) if isinstance(n, ast.Name)} and not node.orelse):
+                raise Unsupported('loop over the pushed patterns drifted')
+            s.ghost['pattern_args'] = s.ghost['pattern_args'] + (lift(e.ev(b[0].value.args[0], s)).t,)
+            sr = s.fork(s.ghost['pattern_fail'], mark='!pattern'); sf = s.fork(z3.Not(s.ghost['pattern_fail']), mark='+pattern')
+            return [o for o in (('raise', VExc(XMLSchemaValidationError), sr), ('fall', None, sf)) if e.feasible(o[2])]
         if ast.unparse(node.iter) != 'self.member_types': raise Unsupported('loop header drifted')
         x0 = s.env['xsd_type']
         e.oblige('loop-entry', s, z3.BoolVal(isinstance(x0, VNone)))
@@ -113,6 +122,36 @@ def _(run):
     reset = lambda kind, v, s: z3.BoolVal(isinstance(s.objf['context']['patterns'], VNone) or (isinstance(s.objf['context']['patterns'], VOpt) and z3.is_true(z3.simplify(s.objf['context']['patterns'].none))))
     run.post(ex, outs, modes, {'first-matching-member-decides': first_match, 'pushed-patterns-applied-to-the-member-normalised-text': patterns_ok,
                                'pushed-patterns-consumed': reset})
+
+
+def pushed_patterns_model(ex, st, ctx_none):
+    """context.patterns is None or the list of the pattern facets pushed by the restriction steps above: a step pushes its own facets by creating the list `[self.patterns]`
+    or by appending to the list that is there.  Returns (initial field value, predicate own(x))."""
+    st.objf['outer_list'] = {}; st.objf['fresh_list'] = {}
+    init = VOpt(ctx_none, VObj('outer_list')); st.objf['context']['patterns'] = init
+    st.ghost.update(appended=(), fresh=None)
+    orig_list = ex.e_List
+
+    def e_List(e, s):
+        if ast.unparse(e) == '[self.patterns]': s.ghost['fresh'] = ex.ev(e.elts[0], s); return VObj('fresh_list')
+        return orig_list(e, s)
+    ex.e_List = e_List
+
+    def append(e, s, recv, a, k):
+        if not (isinstance(recv, VObj) and recv.name == 'outer_list' and len(a) == 1): raise Unsupported('append on another list')
+        s.ghost['appended'] = s.ghost['appended'] + (a[0],); return NONE
+    ex.callees['append'] = append
+    return init
+
+
+def pushed_state(s, init, own):
+    """('fresh' | 'appended' | 'unchanged' | 'other') for the state of context.patterns on a path"""
+    cp = s.objf['context']['patterns']; app = s.ghost['appended']; fresh = s.ghost['fresh']
+    if isinstance(cp, VOpt) and cp is not init and z3.is_false(z3.simplify(cp.none)): cp = cp.val       # a value stored into an Optional field
+    if isinstance(cp, VObj) and cp.name == 'fresh_list' and fresh is not None and own(fresh) and app == (): return 'fresh'
+    if cp is init and len(app) == 1 and own(app[0]) and fresh is None: return 'appended'
+    if cp is init and app == () and fresh is None: return 'unchanged'
+    return 'other'
 
 
 # ------------------------------------------------------------------ XsdList.raw_decode: item-wise decoding
@@ -240,7 +279,7 @@ def _(run):
 t = Target('simple_types.XsdAtomicRestriction.raw_decode', ['C02', 'C14'], F, 'XsdAtomicRestriction.raw_decode',
            note='a restricted simple type decodes with its base type and then applies EVERY validator of the restriction to the decoded value, once each, collecting their errors with the '
                 'caller\'s validation mode; the patterns of the restriction are applied to the text as normalised by the restriction - or, when the primitive type is a union, handed to '
-                'the union through the context (only if no outer restriction has pushed patterns already); the value returned is the base type\'s value; a mixed complex base returns the text',
+                'the union through the context IN ADDITION to the patterns that the restriction steps above have pushed (every step of a derivation contributes its facets); the value returned is the base type\'s value; a mixed complex base returns the text',
            assumes=['the validators are an uninterpreted finite set of callables, each either passing or raising XMLSchemaValidationError; base decoding is uninterpreted',
                     'obj is a str (bytes take the same path)'])
 
@@ -256,7 +295,9 @@ def _(run):
     st.objf['content'] = {}; st.objf['base'] = {'content': VObj('content'), 'mixed': VBool(base_mixed)}
     st.objf['self'] = {'patterns': VOpt(pat_none, VStr(SV('<patterns>'))), 'primitive_type': VObj('prim'), 'base_type': VObj('base'), 'validators': ('validators',)}
     st.objf['prim'] = {}
-    st.objf['context'] = {'patterns': VOpt(ctx_none, VStr(SV('<outer patterns>')))}
+    st.objf['context'] = {}
+    init_cp = pushed_patterns_model(ex, st, ctx_none)
+    own = lambda x: isinstance(x, VOpt) and x.none.eq(pat_none)
     st.env.update(self=VObj('self'), obj=VStr(obj), validation=VStr(z3.String('validation')), context=VObj('context'))
     st.ghost.update(errs=0, pattern_args=(), called=z3.K(Ref, False), twice=z3.BoolVal(False), decoded=None, cur=None, verrs=z3.K(Ref, False))
     ex.names.update(XsdUnion=OPAQUE, XsdSimpleType=OPAQUE, XMLSchemaValueError=OPAQUE)
@@ -316,12 +357,11 @@ def _(run):
 
     def patterns(kind, v, s):
         if kind != 'return': return None
-        args = s.ghost['pattern_args']; pushed = s.objf['context']['patterns']
+        args = s.ghost['pattern_args']
         applied_here = z3.And(z3.Not(pat_none), z3.Not(prim_union))
         ok_args = z3.If(applied_here, z3.BoolVal(len(args) == 1) if len(args) != 1 else (args[0] == norm(obj)), z3.BoolVal(len(args) == 0))
-        push = z3.And(z3.Not(pat_none), prim_union, ctx_none)
-        ok_push = z3.If(push, z3.BoolVal(isinstance(pushed, VOpt) and pushed is s.objf['self']['patterns'] or (isinstance(pushed, VOpt) and z3.is_false(z3.simplify(pushed.none))) and not isinstance(pushed, VNone)),
-                        z3.BoolVal(pushed is st.objf['context']['patterns'] or (isinstance(pushed, VOpt) and pushed.none is ctx_none)))
+        push = z3.And(z3.Not(pat_none), prim_union); how = pushed_state(s, init_cp, own)
+        ok_push = z3.If(push, z3.If(ctx_none, z3.BoolVal(how == 'fresh'), z3.BoolVal(how == 'appended')), z3.BoolVal(how == 'unchanged'))
         return z3.And(ok_args, ok_push)
 
     def base_value(kind, v, s):
@@ -342,8 +382,8 @@ def _(run):
 t = Target('simple_types.XsdAtomicRestriction.raw_encode.patterns', ['C02', 'C05'], F, 'XsdAtomicRestriction.raw_encode',
            note='encode direction of a restricted simple type (here: a restriction without value validators, so that the clause about patterns stands alone): whatever the value to encode is - a '
                 'string, a typed Python value, a list - the text produced by the base type is checked against the pattern facets of the restriction exactly once, and a mismatch is reported with '
-                'the caller\'s validation mode; when the primitive type is a union the patterns are handed to the union through the context instead (only if no outer restriction has pushed '
-                'patterns already); the text returned is the base type\'s; a list, an atomic or any other non-union primitive type makes no difference',
+                'the caller\'s validation mode; when the primitive type is a union the patterns are handed to the union through the context instead, in addition to those the restriction steps '
+                'above have pushed; the text returned is the base type\'s; a list, an atomic or any other non-union primitive type makes no difference',
            assumes=['base encoding, normalize, is_list / is_atomic are uninterpreted; the validators loop is covered on the decode side (same loop) and by the bounded family C02.encode_typed_values'])
 
 
@@ -356,7 +396,9 @@ def _(run):
     result = z3.String('encoded_text')
     st.objf['content'] = {}; st.objf['base'] = {'content': VObj('content'), 'mixed': VBool(base_mixed)}; st.objf['prim'] = {}
     st.objf['self'] = {'patterns': VOpt(pat_none, VStr(SV('<patterns>'))), 'primitive_type': VObj('prim'), 'base_type': VObj('base'), 'validators': VBool(z3.BoolVal(False)), 'max_length': VInt(z3.Int('max_length'))}
-    st.objf['context'] = {'patterns': VOpt(ctx_none, VStr(SV('<outer patterns>'))), 'namespaces': OPAQUE}
+    st.objf['context'] = {'namespaces': OPAQUE}
+    init_cp = pushed_patterns_model(ex, st, ctx_none)
+    own = lambda x: isinstance(x, VOpt) and x.none.eq(pat_none)
     st.objf['obj'] = {}
     st.env.update(self=VObj('self'), obj=VObj('obj'), validation=VStr(z3.String('validation')), context=VObj('context'))
     st.ghost.update(errs=0, pattern_args=(), encoded=0, pushed_at_encode=None)
@@ -391,7 +433,7 @@ def _(run):
     orig_ev = ex.ev
     def ev(e, s):
         if isinstance(e, ast.IfExp) and ast.unparse(e).startswith('[] if obj is None'): return VObj('obj')       # obj wrapped into a list: still "the value to encode"
-        if isinstance(e, ast.List): return VObj('obj')
+        if isinstance(e, ast.List) and ast.unparse(e) != '[self.patterns]': return VObj('obj')
         return orig_ev(e, s)
     ex.ev = ev
 
@@ -407,7 +449,7 @@ def _(run):
 
     def raw_encode(e, s, r, a, k):
         s.ghost['encoded'] += 1
-        cp = s.objf['context']['patterns']; s.ghost['pushed_at_encode'] = cp
+        s.ghost['pushed_at_encode'] = pushed_state(s, init_cp, own)
         return VOpt(res_none, VStr(result))
     ex.callees['raw_encode'] = raw_encode
     pre = z3.And(z3.Not(z3.And(prim_union, prim_atomic, prim_list)), z3.Implies(prim_list, z3.Not(prim_union)), z3.Implies(prim_list, z3.Not(prim_atomic)))
@@ -426,9 +468,8 @@ def _(run):
 
     def union_gets_the_patterns(kind, v, s):
         if kind == 'raise' or s.ghost['encoded'] == 0: return z3.BoolVal(True)
-        cp = s.ghost['pushed_at_encode']
-        want_pushed = z3.And(z3.Not(pat_none), prim_union, ctx_none)
-        return z3.Implies(want_pushed, z3.And(z3.Not(cp.none), cp.val.t == SV('<patterns>'))) if isinstance(cp, VOpt) else z3.BoolVal(False)
+        how = s.ghost['pushed_at_encode']
+        return z3.If(z3.And(z3.Not(pat_none), prim_union), z3.If(ctx_none, z3.BoolVal(how == 'fresh'), z3.BoolVal(how == 'appended')), z3.BoolVal(how == 'unchanged'))
 
     def returns_base_text(kind, v, s):
         if kind == 'raise': return z3.BoolVal(True)
